@@ -2,6 +2,7 @@
 from fractions import Fraction
 from vp_common import *
 import vp_coq, kick_cases as kc
+import round_cases as rnd
 
 
 def poly_cases(ctx, count):
@@ -120,26 +121,49 @@ def run_coeffs(ctx, fs):
         raise RuntimeError("model_driver: " + err[-500:])
     model = parse_cases(out)
     dis = []
+    ratio = 0.0
     for it in (1, 2, 3, 4):
         iw, mw = impl["c%d" % it]["w"], model["c%d" % it]["w"]
+        # the binary32 evaluation the typed trees (Gen_CoeffsFl) prescribe, on rationals: the implementation's weights must be
+        # exactly the unfused or the contracted evaluation (the harness build does not contract; the theorems cover both)
+        nfl = min(len(fs), 4000)          # the extracted evaluator takes 4 ms per cubic offset: first 4000 samples (thorough: 40000)
+        flw = rnd.fl_weights(it, fs[:nfl])
         for k, f in enumerate(fs):
             wi = [parse_c(t) for t in iw[k]]
             wm = [parse_q(t) for t in mw[k]]
-            tol = Fraction(8, 2 ** 24)
-            if any(isinstance(a, str) or abs(a - b) > tol for a, b in zip(wi, wm)):
-                dis.append(dict(case=dict(kind="coeffs", it=it, f=fhex(f)), detail=dict(impl=[str(x) for x in wi], model=[str(x) for x in wm]),
+            if k < nfl and wi != flw[k][0] and wi != flw[k][1]:
+                dis.append(dict(case=dict(kind="coeffs", it=it, f=fhex(f)),
+                                detail=dict(impl=[str(x) for x in wi], typed_tree_binary32=[str(x) for x in flw[k][0]],
+                                            what="weights differ from the binary32 evaluation of the typed expression trees"),
+                                sig=dict(kind="coeffs", it=it, stream="bit-exact")))
+            # the PROVED envelope (C02_cell_table_sound, C02_weights_unity_rounded): per weight, unity, moments below the order
+            bad = rnd.check_weights(it, f, wi, wm)
+            E = rnd.weight_bounds(it, f)
+            if not any(isinstance(a, str) for a in wi) and sum(E) > 0:
+                ratio = max(ratio, float(abs(sum(wi) - 1) / sum(E)))
+            if "each" in bad:
+                dis.append(dict(case=dict(kind="coeffs", it=it, f=fhex(f)),
+                                detail=dict(impl=[str(x) for x in wi], model=[str(x) for x in wm], weight=bad["each"][0],
+                                            proved_bound=bad["each"][2]),
                                 sig=dict(kind="coeffs", it=it)))
             # oracle: unity and unit-at-zero on the implementation
-            s = sum(wi)
-            if abs(s - 1) > Fraction(8, 2 ** 24):
-                ctx.violation("impl-oracle", "interpolation weights do not sum to one", case=dict(kind="coeffs", it=it, f=fhex(f)),
-                              observed=str(s), expected="1 +- 8*2^-24", sig=dict(kind="coeffs", clause="unity", it=it))
+            if "unity" in bad:
+                ctx.violation("impl-oracle", "interpolation weights do not sum to one within the proved rounding envelope",
+                              case=dict(kind="coeffs", it=it, f=fhex(f)),
+                              observed=bad["unity"][0], expected="|sum - 1| <= %s (C02_cell_table_sound)" % bad["unity"][1],
+                              sig=dict(kind="coeffs", clause="unity", it=it))
+            if "moment" in bad:
+                ctx.violation("impl-oracle", "n-point weights do not reproduce a monomial of degree below n within the proved rounding envelope",
+                              case=dict(kind="coeffs", it=it, f=fhex(f)),
+                              observed=dict(degree=bad["moment"][0], error=bad["moment"][1]), expected="<= %s" % bad["moment"][2],
+                              sig=dict(kind="coeffs", clause="moments", it=it))
             if f == 0.0:
                 unit = [Fraction(1) if j == kc.centre(it) else Fraction(0) for j in range(it)]
                 if wi != unit:
                     ctx.violation("impl-oracle", "weights at offset zero are not a single unit weight", case=dict(kind="coeffs", it=it, f=fhex(f)),
                                   observed=[str(x) for x in wi], expected=[str(x) for x in unit], sig=dict(kind="coeffs", clause="unit-at-zero", it=it))
             ctx.case_done(("coeffs", it, f), it > 1 and f != 0)
+    ctx.extra["unity_error_over_proved_bound_max"] = ratio
     return dis
 
 
@@ -279,43 +303,89 @@ def run_rot(ctx, cases):
     return dis
 
 
-def run_sweep(ctx):
-    """thorough tier: EVERY binary32 value in [0,1) x it=1..4 through the real calcCoefficiants (an exhaustive
-    enumeration of that finite domain on the implementation; it supports the ring theorems, it does not replace them)"""
-    tg = ctx.build()
-    rc, out, err = run_driver(tg["impl_kick"], "".join("coeffsweep s%d %d 16\n" % (it, it) for it in (1, 2, 3, 4)), timeout=3000)
+def run_sweep(ctx, stride=1, threads=6):
+    """EVERY stride-th binary32 value in [0,1) x it=1..4 through the real calcCoefficiants, checked against the PROVED per-cell
+    bounds (C02_cell_table_sound: 2^10 cells, computed by the extracted verified calculator on the typed trees of this run):
+    each weight against the Lagrange weight, the sum against one, the moments below the order.  stride=1 (thorough tier) is the
+    exhaustive enumeration of that finite domain.  The C++ side pre-selects in double; every suspect is decided here exactly."""
+    tg = ctx.build(harness=("impl_kick", "impl_round"))
+    one = 0x3f800000
+    text = []
+    for it in (1, 2, 3, 4):
+        tab = rnd.errtab_units(it)
+        text.append("coeffsweepb s%d %d %d %d 0 %d %d %s\n" % (it, it, threads, rnd.K_TABLE, one, stride,
+                                                               " ".join("%x" % e for row in tab for e in row)))
+    rc, out, err = run_driver(tg["impl_round"], "".join(text), timeout=3000)
     if rc != 0:
-        raise RuntimeError("coeffsweep failed: " + err[-500:])
+        raise RuntimeError("coeffsweepb failed: " + err[-500:])
     r = parse_cases(out)
     tot = 0
     for it in (1, 2, 3, 4):
         c = r["s%d" % it]
         n = int(c["n"][0][0])
-        ms, fs = float.fromhex(c["maxsum"][0][0]), c["maxsum"][0][1]
-        mm, fm = float.fromhex(c["maxmom"][0][0]), c["maxmom"][0][1]
         tot += n
-        if n != 0x3f800000:
-            raise RuntimeError("sweep did not cover all floats in [0,1)")
-        if ms > 8 * 2.0 ** -24:
-            ctx.violation("impl-oracle", "interpolation weights do not sum to one", case=dict(kind="coeffs", it=it, f=fs), observed=ms,
-                          expected="<= 8*2^-24", sig=dict(kind="coeffs", clause="unity", it=it))
-        if mm > 16 * 2.0 ** -24:
-            ctx.violation("impl-oracle", "n-point weights do not reproduce a monomial of degree below n", case=dict(kind="coeffs", it=it, f=fm),
-                          observed=mm, expected="<= 16*2^-24", sig=dict(kind="coeffs", clause="moments", it=it))
+        if n != (one + stride - 1) // stride:
+            raise RuntimeError("sweep did not cover the requested floats in [0,1)")
+        sus = [float.fromhex(t) for t in c["suspects"][0]] if c["suspects"][0] else []
+        nsus = int(c["nsus"][0][0])
+        found = False
+        if sus:
+            # exact decision on the suspects (rational arithmetic; exact weights from the extracted exact model)
+            mtext = "coeffs c %d %d %s\n" % (it, len(sus), " ".join(qtok(Fraction(f)) for f in sus))
+            itext = "coeffs c %d %d %s\n" % (it, len(sus), " ".join(fhex(f) for f in sus))
+            rc1, o1, e1 = run_driver(tg["impl_kick"], itext)
+            rc2, o2, e2 = run_driver(model_driver_path(), mtext)
+            if rc1 != 0 or rc2 != 0:
+                raise RuntimeError("re-evaluation of the sweep suspects failed")
+            iw, mw = parse_cases(o1)["c"]["w"], parse_cases(o2)["c"]["w"]
+            for kk, f in enumerate(sus):
+                wi = [parse_c(t) for t in iw[kk]]
+                wm = [parse_q(t) for t in mw[kk]]
+                bad = rnd.check_weights(it, f, wi, wm)
+                if "unity" in bad:
+                    ctx.violation("impl-oracle", "interpolation weights do not sum to one within the proved rounding envelope",
+                                  case=dict(kind="coeffs", it=it, f=fhex(f)), observed=bad["unity"][0],
+                                  expected="|sum - 1| <= %s (C02_cell_table_sound)" % bad["unity"][1], sig=dict(kind="coeffs", clause="unity", it=it))
+                    found = True
+                    break
+                if "moment" in bad:
+                    ctx.violation("impl-oracle", "n-point weights do not reproduce a monomial of degree below n within the proved rounding envelope",
+                                  case=dict(kind="coeffs", it=it, f=fhex(f)), observed=dict(degree=bad["moment"][0], error=bad["moment"][1]),
+                                  expected="<= %s" % bad["moment"][2], sig=dict(kind="coeffs", clause="moments", it=it))
+                    found = True
+                    break
+                if "each" in bad:
+                    ctx.violation("impl-oracle", "an interpolation weight differs from the Lagrange weight of its node by more than the proved rounding envelope "
+                                  "(polynomials below the order are not reproduced to rounding)",
+                                  case=dict(kind="coeffs", it=it, f=fhex(f)), observed=dict(weight=bad["each"][0], value=bad["each"][1]),
+                                  expected="within %s of the exact weight" % bad["each"][2], sig=dict(kind="coeffs", clause="moments", it=it))
+                    found = True
+                    break
+        if nsus > len(sus) and not found:
+            raise RuntimeError("sweep: %d suspects but only %d could be re-decided exactly and none of those fails" % (nsus, len(sus)))
         if c["zero"][0][0] != "1":
             ctx.violation("impl-oracle", "weights at offset zero are not a single unit weight", case=dict(kind="coeffs", it=it, f="0x0p+0"),
                           sig=dict(kind="coeffs", clause="unit-at-zero", it=it))
-        ctx.extra.setdefault("float_sweep", {})["it%d" % it] = dict(floats=n, max_sum_error=ms, at=fs, max_moment_error=mm, at_m=fm)
+        ctx.extra.setdefault("float_sweep", {})["it%d" % it] = dict(
+            floats=n, stride=stride, cells=2 ** rnd.K_TABLE, suspects_rechecked_exactly=len(sus),
+            max_weight_error_over_proved_bound=float.fromhex(c["each"][0][0]), at_w=c["each"][0][1],
+            max_unity_error_over_proved_bound=float.fromhex(c["unity"][0][0]), at_u=c["unity"][0][1],
+            max_moment_error_over_proved_bound=float.fromhex(c["moment"][0][0]), at_m=c["moment"][0][1])
     ctx.evaluations += tot
-    ctx.count("coeffs:exhaustive-sweep", tot)
-    ctx.notes.append("all %d binary32 values in [0,1) x 4 orders evaluated through SourceMap::calcCoefficiants (exhaustive for that domain)" % 0x3f800000)
+    ctx.count("coeffs:sweep-against-proved-bounds", tot)
+    if stride == 1:
+        ctx.notes.append("all %d binary32 values in [0,1) x 4 orders evaluated through SourceMap::calcCoefficiants and checked against the "
+                         "proved per-cell rounding bounds (exhaustive for that domain)" % one)
+    else:
+        ctx.notes.append("every %d-th binary32 value in [0,1) x 4 orders through SourceMap::calcCoefficiants against the proved per-cell "
+                         "rounding bounds (the thorough tier takes every value)" % stride)
 
 
 def run(ctx):
     ctx.rule = ("kick cases: n 4..33, both directions, it 1..4, nb 1..3, streams exact (offsets k/16, integer data, bit equality), "
                 "whole (integer offsets, arbitrary data, bit equality), tol (arbitrary floats, K*2^-24*cond), polynomial fields; "
                 "coefficient samples in [0,1); RotationMap cases n 6..14, it 1..4, angles 0, +-small, pi/2, pi, random, shifted extents, precomputed and on-the-fly map, polynomial x^k y^l and random data. Non-trivial: non-zero shift on non-zero data / degree>=1 with fractional offset / it>1 and f!=0.")
-    coq = vp_coq.full_check("C02", ctx, fams=("kick",))
+    coq = vp_coq.full_check("C02", ctx, fams=("kick", "round"))
     nk = 120 if ctx.quick() else 3000
     cases = kc.gen_cases(ctx, nk, streams=("exact", "whole", "tol", "whole"))
     pc = poly_cases(ctx, 60 if ctx.quick() else 1500)
@@ -334,14 +404,15 @@ def run(ctx):
     ctx.sample(cases[0].describe())
     ctx.sample(dict(pc[0].describe(), coef=pc[0].coef))
     dis += run_coeffs(ctx, coeff_cases(ctx, 400 if ctx.quick() else 40000))
-    if not ctx.quick():
-        run_sweep(ctx)
+    run_sweep(ctx, stride=4099 if ctx.quick() else 1)
     rc = rot_cases(ctx, 40 if ctx.quick() else 600)
     dis += run_rot(ctx, rc)
     ctx.sample(rc[0].replay() if rc[0].coef is not None else dict(rc[0].replay(), data="(random integers)"))
     ctx.extra["correspondence_disagreements"] = len(dis)
-    ctx.assumptions += ["exact-arithmetic model; rounding handled by the exact/tolerance streams (DESIGN 3)",
-                        "rnd32 (Base/Float32.v) is trusted, validated by the correspondence itself",
+    rnd.trusted(ctx)
+    ctx.assumptions += ["exact-arithmetic model; the rounding of the interpolation weights is bounded by theorem (C02_weights_*_rounded, "
+                        "C02_cell_table_sound) and the implementation is checked against those bounds; kick/rotation outputs still use the "
+                        "exact/tolerance streams (DESIGN 3)",
                         "whole-shift theorem proved for n <= 4096 (kernel sweep of the float rounding on [0,4096))"]
     conclude(ctx, coq, dis)
 
